@@ -55,7 +55,24 @@ impl DependentRule for SerializableRule {
 
 impl<L: Language> DependentRule for (L, SerializableRuleCore) {
   fn visit_dependency<'a>(&'a self, sorter: &mut TopologicalSort<'a, Self>) -> OrderResult<()> {
-    visit_dependent_rule_ids(&self.1.rule, sorter)
+    // a `matches` that names a local utility rule of this global rule leads into that
+    // utility: it is tried on the same node and can reach global rules as well
+    let locals = self.1.utils.as_ref();
+    let mut entered = vec![];
+    let mut pending = vec![&self.1.rule];
+    while let Some(rule) = pending.pop() {
+      visit_same_node_rule_ids(rule, &mut |id| {
+        let Some(local) = locals.and_then(|utils| utils.get(id)) else {
+          return sorter.visit(id);
+        };
+        if !entered.contains(&id) {
+          entered.push(id);
+          pending.push(local);
+        }
+        Ok(())
+      })?;
+    }
+    Ok(())
   }
 }
 
@@ -124,22 +141,30 @@ fn visit_dependent_rule_ids<'a, T: DependentRule>(
   rule: &'a SerializableRule,
   sort: &mut TopologicalSort<'a, T>,
 ) -> OrderResult<()> {
+  visit_same_node_rule_ids(rule, &mut |id| sort.visit(id))
+}
+
+/// Visits the ids of the rules that `rule` tries on the very node it is matched against.
+fn visit_same_node_rule_ids<'a>(
+  rule: &'a SerializableRule,
+  visit: &mut dyn FnMut(&'a str) -> OrderResult<()>,
+) -> OrderResult<()> {
   // handle all composite rule here
   if let Maybe::Present(matches) = &rule.matches {
-    sort.visit(matches)?;
+    visit(matches)?;
   }
   if let Maybe::Present(all) = &rule.all {
     for sub in all {
-      visit_dependent_rule_ids(sub, sort)?;
+      visit_same_node_rule_ids(sub, visit)?;
     }
   }
   if let Maybe::Present(any) = &rule.any {
     for sub in any {
-      visit_dependent_rule_ids(sub, sort)?;
+      visit_same_node_rule_ids(sub, visit)?;
     }
   }
   if let Maybe::Present(not) = &rule.not {
-    visit_dependent_rule_ids(not, sort)?;
+    visit_same_node_rule_ids(not, visit)?;
   }
   // nthChild's ofRule is matched against the node itself as well
   if let Maybe::Present(SerializableNthChild::Complex {
@@ -147,7 +172,7 @@ fn visit_dependent_rule_ids<'a, T: DependentRule>(
     ..
   }) = &rule.nth_child
   {
-    visit_dependent_rule_ids(of_rule, sort)?;
+    visit_same_node_rule_ids(of_rule, visit)?;
   }
   Ok(())
 }
